@@ -53,6 +53,29 @@ struct WrapIt {
     friend auto operator!=(WrapIt a, WrapIt b) -> bool { return a.p != b.p; }
 };
 
+// a genuine SINGLE-PASS input iterator (like istream_iterator): all copies share one read position, so a library that
+// walks the range twice (e.g. to measure it first) finds it exhausted the second time
+template <typename Char>
+struct OncePos {
+    Char const* cur;
+    Char const* last;
+};
+template <typename Char>
+struct OnceIt {
+    using iterator_category = etl::input_iterator_tag;
+    using value_type        = Char;
+    using difference_type   = std::ptrdiff_t;
+    using pointer           = Char const*;
+    using reference         = Char const&;
+    OncePos<Char>* st;   // nullptr: the end iterator
+    auto exhausted() const -> bool { return st == nullptr || st->cur == st->last; }
+    auto operator*() const -> Char const& { return *st->cur; }
+    auto operator++() -> OnceIt& { ++st->cur; return *this; }
+    auto operator++(int) -> OnceIt { auto t = *this; ++st->cur; return t; }
+    friend auto operator==(OnceIt a, OnceIt b) -> bool { return a.exhausted() == b.exhausted(); }
+    friend auto operator!=(OnceIt a, OnceIt b) -> bool { return !(a == b); }
+};
+
 // Q: the query operations (search / compare / replace / accessors ...) are compiled for this instantiation;
 // every instantiation has the histories
 template <typename Char, std::size_t Cap, bool Q = true>
@@ -137,11 +160,11 @@ struct Run {
                 impl([&] { e.append(It{f}, It{l}); });
                 ref(true, [&] { r.append(f, l); });
             } else {
-                using It = WrapIt<Char, etl::input_iterator_tag>;
-                impl([&] { e.append(It{f}, It{l}); });
+                OncePos<Char> pos{f, l};
+                impl([&] { e.append(OnceIt<Char>{&pos}, OnceIt<Char>{nullptr}); });
                 ref(true, [&] { r.append(f, l); });
             }
-        } else if (op == "zr" || op == "zrr" || op == "zrf" || op == "krr" || op == "krf") {
+        } else if (op == "zr" || op == "zrr" || op == "zrf" || op == "zri" || op == "krr" || op == "krf") {
             // assign(first, last) / basic_inplace_string(first, last) with pointers, reverse and forward-only iterators
             Src<Char> src(in.list());
             Char const* f = src.p;
@@ -156,6 +179,10 @@ struct Run {
                 ref(true, [&] { r.assign(std::reverse_iterator<Char const*>(l), std::reverse_iterator<Char const*>(f)); });
             } else if (op == "zrf") {
                 impl([&] { e.assign(Ft{f}, Ft{l}); });
+                ref(true, [&] { r.assign(f, l); });
+            } else if (op == "zri") {
+                OncePos<Char> pos{f, l};
+                impl([&] { e.assign(OnceIt<Char>{&pos}, OnceIt<Char>{nullptr}); });
                 ref(true, [&] { r.assign(f, l); });
             } else if (op == "krr") {
                 impl([&] { e = E(Rt(l), Rt(f)); });
